@@ -1470,9 +1470,26 @@ func (e *l2env) pat(p string) string {
 	return p
 }
 
+var stopCalls atomic.Int64
+
+// safeStop shuts a component down; every third call hands Shutdown a context that has already ended (a service
+// shutting down under an expired deadline): what the limiter has to do at Shutdown does not depend on it.
 func safeStop(c *driver.Ctx, comp component.Component) error {
 	var err error
-	if pv, stack := driver.Catch(func() { err = comp.Shutdown(context.Background()) }); pv != nil {
+	ctx := context.Background()
+	switch stopCalls.Add(1) % 6 {
+	case 2:
+		cctx, cancel := context.WithCancel(ctx)
+		cancel()
+		ctx = cctx
+		c.Observe("l2_shutdowns_with_an_ended_context:cancelled", 1)
+	case 5:
+		dctx, cancel := context.WithDeadline(ctx, time.Unix(1, 0))
+		defer cancel()
+		ctx = dctx
+		c.Observe("l2_shutdowns_with_an_ended_context:deadline-passed", 1)
+	}
+	if pv, stack := driver.Catch(func() { err = comp.Shutdown(ctx) }); pv != nil {
 		c.Violation("panic", fmt.Sprintf("Shutdown panicked: %v", pv), map[string]any{"stack": stack}, "site", driver.PanicSite(stack))
 		return nil
 	}
